@@ -175,10 +175,16 @@ class Histogram1D(ObjectWithBinning, HistogramBase):
         else:
             self._stats = stats or INVALID_STATISTICS
 
+        missed_dtype = self._missed_dtype(self.dtype)
         if self.keep_missed:
-            self._missed = np.array(missed, dtype=self.dtype)
+            self._missed = np.array(missed, dtype=missed_dtype)
         else:
-            self._missed = np.zeros(3, dtype=self.dtype)
+            self._missed = np.zeros(3, dtype=missed_dtype)
+
+    def _missed_dtype(self, dtype: np.dtype) -> np.dtype:
+        # Missed counts are kept as floats: they must be able to hold NaN ("unknown"),
+        # e.g. when a value falls into a gap between non-consecutive bins
+        return np.promote_types(dtype, np.float64)
 
     def copy(self, *, include_frequencies: bool = True) -> "Histogram1D":
         # Overriden to include the statistics as well
